@@ -16,9 +16,11 @@ const (
 	RelDD                  // different buckets
 	RelSplit               // same bucket in a 32-bucket table, different buckets after a grow
 	RelLate                // different buckets, the other keys in the last buckets a resize copies
+	RelZeroSD              // same bucket, different tags, key 0 has the all-zero tag (top hash 0 / h2 0)
+	RelZeroDD              // different buckets, every alphabet key has the all-zero tag
 )
 
-var relNames = [...]string{"sameBucketSameTag", "sameBucketDiffTag", "diffBuckets", "splitOnGrow", "lateBuckets"}
+var relNames = [...]string{"sameBucketSameTag", "sameBucketDiffTag", "diffBuckets", "splitOnGrow", "lateBuckets", "sameBucketZeroTag", "diffBucketsZeroTag"}
 
 type TableCond int
 
@@ -49,7 +51,7 @@ func layoutFor(rel KeyRel) Layout {
 				return 0
 			}
 			switch rel {
-			case RelDD:
+			case RelDD, RelZeroDD:
 				return uint64(k)
 			case RelSplit:
 				return uint64(k%2) << 5
@@ -68,8 +70,15 @@ func layoutFor(rel KeyRel) Layout {
 			case k >= fillTarget:
 				return uint64(k-fillTarget)%10 + 10
 			}
-			if rel == RelSS {
+			switch rel {
+			case RelSS:
 				return 5
+			case RelZeroDD:
+				return 0
+			case RelZeroSD:
+				if k == 0 {
+					return 0
+				}
 			}
 			return 5 + uint64(k)
 		},
